@@ -157,3 +157,71 @@ func TestVerifPutShutdown(t *testing.T) {
 	}
 	fmt.Printf("put-shutdown done rounds=%d\n", rounds)
 }
+
+// sConn: a connection whose Close takes a while (as closing a socket can)
+type sConn struct {
+	net.Conn
+	closed atomic.Bool
+}
+
+func (c *sConn) Close() error {
+	time.Sleep(150 * time.Microsecond)
+	c.closed.Store(true)
+	return nil
+}
+
+// TestVerifCleanupShutdown: the janitor pass (cleanup) is busy with a backend's idle list — some
+// connections stale, some fresh — at the moment the pool is shut down. Once both have returned,
+// every connection the pool held is closed: none survives in a list nobody will look at again.
+func TestVerifCleanupShutdown(t *testing.T) {
+	rounds, _ := strconv.Atoi(os.Getenv("VERIF_CLEANUP_ROUNDS"))
+	if rounds <= 0 {
+		rounds = 150
+	}
+	for r := 0; r < rounds; r++ {
+		p := NewWebSocketPool(16, 16, 2*time.Millisecond)
+		var conns []*sConn
+		for k := 0; k < 4; k++ {
+			c := &sConn{}
+			conns = append(conns, c)
+			p.Put("b", c)
+		}
+		time.Sleep(3 * time.Millisecond) // the first four are stale now
+		for k := 0; k < 4; k++ {
+			c := &sConn{}
+			conns = append(conns, c)
+			p.Put("b", c)
+		}
+		var ready, goFlag atomic.Int32
+		var wg sync.WaitGroup
+		wg.Add(2)
+		go func() {
+			defer wg.Done()
+			ready.Add(1)
+			for goFlag.Load() == 0 {
+			}
+			p.cleanup()
+		}()
+		go func() {
+			defer wg.Done()
+			ready.Add(1)
+			for goFlag.Load() == 0 {
+			}
+			for spin := 0; spin < (r%16)*400; spin++ {
+				_ = goFlag.Load()
+			}
+			p.Shutdown()
+		}()
+		for ready.Load() < 2 {
+			runtime.Gosched()
+		}
+		goFlag.Store(1)
+		wg.Wait()
+		for k, c := range conns {
+			if !c.closed.Load() {
+				t.Fatalf("VERIF-POOL round %d: pooled connection %d is still open after cleanup and Shutdown have both returned", r, k)
+			}
+		}
+	}
+	fmt.Printf("cleanup-shutdown done rounds=%d\n", rounds)
+}
